@@ -1,6 +1,7 @@
 package props
 
 import (
+	"bytes"
 	stdjson "encoding/json"
 	"fmt"
 	"strings"
@@ -185,6 +186,47 @@ func c09Run(c *fw.Ctx, b fw.Batch) {
 				c09Judge(c, "enum", y, uint32(len(y)-1), false)
 			}
 		})
+	case "huge":
+		// size thresholds: a defect only in the tail of a document of more than 1 MiB
+		var big bytes.Buffer
+		big.WriteString("[")
+		for big.Len() < 1300000 {
+			big.WriteString(`{"k":[1,2,3],"s":"some text"},`)
+		}
+		base := big.Bytes()
+		for ti, tl := range []string{`{"k":1}]`, `{"k":1}`, `{"k" 1}]`, `{"k":1}]]`, `{"k":1}}`, `{"k":1},]x`, `tru]`, `{"k":1}] junk`, `"a" "b"]`} {
+			x := append(append([]byte{}, base...), tl...)
+			for _, l := range []uint32{0, 8 << 20, uint32(len(x)), uint32(len(x) + 1)} {
+				c09Judge(c, "huge", x, l, false)
+			}
+			c.Distinct(fmt.Sprintf("huge|%d", ti))
+		}
+	case "escapes":
+		// \u followed by 0-4 hex digits and then EVERY byte value; long strings (> 32
+		// bytes) holding an invalid escape, whole and cut inside the string
+		for _, pre := range []string{`["\u`, `["\u1`, `["\u12`, `["\u12a`, `{"\u`, `{"a\u00e`, `["caf\u00e`, `["\`} {
+			for v := 0; v < 256; v++ {
+				for _, suf := range []string{"", `"]`, `x"]`, `1234"]`} {
+					x := append(append([]byte(pre), byte(v)), suf...)
+					for _, l := range []uint32{0, uint32(len(x)), uint32(len(pre) + 1)} {
+						c09Judge(c, "escapes", x, l, false)
+					}
+				}
+			}
+			c.Distinct("esc|" + pre)
+		}
+		pad := strings.Repeat("long string content ", 10)
+		for _, bad := range []string{`\q`, `\x41`, `\u12zz`, `\ `, `\U0041`, `\'`, `\u`, `\a`} {
+			for _, shape := range []string{`["%s`, `{"k":"%s`, `{"%s`, `[1,{"a":["%s`} {
+				d := fmt.Sprintf(shape, pad+bad+pad) + `"]`
+				x := []byte(d)
+				for cut := len(x) - 3; cut > len(shape); cut -= 7 {
+					c09Judge(c, "long-string-bad-escape", x, uint32(cut), false)
+				}
+				c09Judge(c, "long-string-bad-escape", x, 0, false)
+			}
+			c.Distinct("longesc|" + bad)
+		}
 	case "affix":
 		// every byte value and several multi-byte white-space look-alikes before /
 		// after / inside-the-gaps of valid documents
@@ -286,7 +328,7 @@ func init() {
 	fw.Register(&fw.Prop{
 		ID:    "C09",
 		Level: "exploration",
-		Rule: "bounded-exhaustive: ALL sequences of 1..N tokens over the 16-token alphabet [ ] { } , : \" \"a\" 1 space newline a \\ - tru null (N = 6 quick, 7 thorough), each detected whole (limit 0, and len+1) and truncated (limit = len, and len-1), through Detect and through the JSON signature check directly; plus mutated valid documents (delete/insert/swap/replace a structural byte, drop a closer, duplicate a comma, cut + garbage) for longer inputs, plus every byte value and Unicode white-space look-alikes (U+0085, U+00A0, U+2028, U+3000, form feed, comments) before / after / inside valid documents, plus garbage behind 100-9000 nested openers (around and beyond the recursion cap of 4096). " +
+		Rule: "bounded-exhaustive: ALL sequences of 1..N tokens over the 16-token alphabet [ ] { } , : \" \"a\" 1 space newline a \\ - tru null (N = 6 quick, 7 thorough), each detected whole (limit 0, and len+1) and truncated (limit = len, and len-1), through Detect and through the JSON signature check directly; plus mutated valid documents (delete/insert/swap/replace a structural byte, drop a closer, duplicate a comma, cut + garbage) for longer inputs, plus every byte value and Unicode white-space look-alikes (U+0085, U+00A0, U+2028, U+3000, form feed, comments) before / after / inside valid documents, plus \\u escapes followed by every byte value and long strings holding an invalid escape (whole and cut inside the string), plus documents of > 1 MiB whose only defect is in the tail, plus garbage behind 100-9000 nested openers (around and beyond the recursion cap of 4096). " +
 			"non-trivial = the reference recogniser says the parser has something to reject in that mode (whole: not Complete; truncated: Fail); enumerated strings are distinct by construction (counted once per string and mode), mutants are counted by content hash.",
 		Assumptions: []string{
 			"the relaxed language is the one written in oracle/refjson.go from the property statement: RFC 8259 structure, numbers = runs over [-+.0-9eE] with a digit, any byte but '\"' inside strings with the standard escapes, one trailing comma before a closer",
@@ -309,6 +351,8 @@ func init() {
 			bs = append(bs, batches("mutate", 8, nm, 1800)...)
 			bs = append(bs, batches("deep", 1, 0, 1800)...)
 			bs = append(bs, batches("affix", 1, 0, 1800)...)
+			bs = append(bs, batches("huge", 1, 0, 1800)...)
+			bs = append(bs, batches("escapes", 1, 0, 1800)...)
 			// longest batches first
 			for i, j := 0, len(bs)-1; i < j; i, j = i+1, j-1 {
 				bs[i], bs[j] = bs[j], bs[i]
